@@ -59,7 +59,7 @@ def shift_ranges(v: Any, src_from: T.Term, src_to: T.Term, shift: int) -> Any:
     return v
 
 
-from .c05 import reads_of as _reads  # noqa: E402
+from .c05 import _sum_arity, reads_of as _reads  # noqa: E402
 
 
 def run(prog: Program, rep: Report, tier: str) -> None:
@@ -148,7 +148,7 @@ def run(prog: Program, rep: Report, tier: str) -> None:
                 vb = LS.term_of(prog, bentry, B.MSG)  # accepted equivalent form -> its reference meaning
             shifted = shift_ranges(vb, B.MSG, R, -2 * d["shift_bytes"])
             same = canon(core(shifted)) == canon(core(vr))
-            if not same and len(_reads(core(shifted))) > 1 and len(_reads(core(vr))) == 1:
+            if not same and len(_reads(core(shifted))) > 1 and _sum_arity(core(shifted)) >= 2 and _sum_arity(core(vr)) < _sum_arity(core(shifted)):
                 # the broadcast getter combines several reads by arithmetic of its own (another decoding of the field than
                 # the forms the specification lists): whether it means the same number is not something this rule compares
                 rep.undecided("R8.3", f"{fam}: {bg} ~ {rg}", where, f"broadcast getter {bg} decodes the field in a form this rule does not compare ({T.show(core(shifted))[:160]})")
